@@ -58,6 +58,10 @@ fn call_hand(b: &mut Builder, name: &str, a: &[&str]) -> Option<String> {
         ("begin_block_no_label", 1) => res_id(b.begin_block_no_label(ow(a[0])?)),
         ("select_function", 1) => res_unit(b.select_function(ou(a[0])?)),
         ("select_block", 1) => res_unit(b.select_block(ou(a[0])?)),
+        ("select_function_by_name", 1) => {
+            let name = String::from_utf8(crate::util::try_unhex(a[0])?).ok()?;
+            res_unit(b.select_function_by_name(&name))
+        }
         ("pop_instruction", 0) => match b.pop_instruction() {
             Ok(i) => format!("ok:{}", crate::chan::parse::show_inst(&i)),
             Err(e) => format!("err:{}", show_lerr(&e)),
